@@ -65,6 +65,12 @@ struct Thr {
   const void* last_addr = nullptr;
   uint64_t last_val = 0, last_progress = 0;
   int spin_count = 0;
+  // a spin loop may alternate between a few locations (atomic_intrusive_list::try_lock_checking
+  // re-reads a monitored pointer and a link word): remember the last few (address, value) pairs
+  // loaded since the last write by anybody
+  const void* recent_addr[4] = {nullptr, nullptr, nullptr, nullptr};
+  uint64_t recent_val[4] = {0, 0, 0, 0};
+  int nrecent = 0;
   bool parked = false;
   uint64_t park_progress = 0;
   uint64_t yield_progress = 0;
@@ -288,14 +294,21 @@ void pre_atomic(const void* a) {
 }
 void post_load(const void* a, uint64_t v) {
   Thr* me = tl_me; ExecState& ex = *g_ex;
-  if (me->last_addr == a && me->last_val == v && me->last_progress == ex.progress) me->spin_count++;
-  else me->spin_count = 0;
+  if (me->last_progress != ex.progress) me->nrecent = 0;
+  bool again = false;
+  for (int k = 0; k < me->nrecent; ++k) if (me->recent_addr[k] == a && me->recent_val[k] == v) again = true;
+  if (again) me->spin_count++;
+  else {
+    me->spin_count = 0;
+    if (me->nrecent == 4) me->nrecent = 0;
+    me->recent_addr[me->nrecent] = a; me->recent_val[me->nrecent] = v; me->nrecent++;
+  }
   me->last_addr = a; me->last_val = v; me->last_progress = ex.progress;
   if (me->spin_count >= 3) { me->parked = true; me->park_progress = ex.progress; } else me->parked = false;
   trace_op("ld", a, v);
 }
 void post_write(const void* a, uint64_t v) {
-  Thr* me = tl_me; me->last_addr = nullptr; me->spin_count = 0; me->parked = false;
+  Thr* me = tl_me; me->last_addr = nullptr; me->spin_count = 0; me->nrecent = 0; me->parked = false;
   note_write(*g_ex); trace_op("wr", a, v);
 }
 
@@ -334,6 +347,8 @@ void start_os_thread(ExecState& ex, Thr* t) {
 namespace rt {
 
 int self() { return tl_me ? tl_me->id : -1; }
+
+int alive() { int n = 0; if (g_ex) for (Thr* t : g_ex->thr) if (!t->finished) ++n; return n; }
 
 int spawn(std::function<void()> fn) {
   if (!managed()) { fprintf(stderr, "rt::spawn outside an execution\n"); _exit(96); }
